@@ -447,10 +447,11 @@ pub fn run_c15(ctx: &Ctx) -> i32 {
                     }
                     let mut rng = SmallRng::seed_from_u64(ctx.case_seed("acct", c));
                     evals += 1;
-                    let viols = match c % 3 {
+                    let viols = match c % 4 {
                         0 => acct_run(ctx, c, &mut rng, &mut local, &mut fps),
                         1 => fragment_run(c, &mut rng, &mut local, &mut fps),
-                        _ => pressure_run(c, &mut rng, &mut local, &mut fps),
+                        2 => pressure_run(c, &mut rng, &mut local, &mut fps),
+                        _ => overwrite_run(c, &mut rng, &mut local, &mut fps),
                     };
                     if !viols.is_empty() {
                         let mut e = shared.lock().unwrap();
@@ -459,7 +460,7 @@ pub fn run_c15(ctx: &Ctx) -> i32 {
                         }
                     }
                     if c < 3 {
-                        let kind = ["accounting identity per command", "drift-free fragment (behavioural)", "pressure phase then small live set (behavioural)"][(c % 3) as usize];
+                        let kind = ["accounting identity per command", "drift-free fragment (behavioural)", "pressure phase then small live set (behavioural)", "overwrite-heavy workload under a generous limit (behavioural form of the known drift)"][(c % 4) as usize];
                         shared.lock().unwrap().sample(json!({"case": c, "kind": kind}));
                     }
                 }
@@ -670,6 +671,48 @@ fn fragment_run(case: u64, rng: &mut SmallRng, local: &mut BTreeMap<String, u64>
         }
     }
     fps.push(fnv(format!("fragment:{}:{}", l, nkeys).as_bytes()));
+    vec![]
+}
+
+/// (b0) the behavioural face of the known accounting drift (D8b), without the hook: a small live set
+/// under a generous limit, one key overwritten / appended / incremented over and over. No stored
+/// byte count ever comes near the limit, yet live keys disappear. Reported under the signature
+/// `live-key-lost:overwrite-workload`, which is a listed known finding; the drift-free fragment and the
+/// pressure run above stay exact.
+fn overwrite_run(case: u64, rng: &mut SmallRng, local: &mut BTreeMap<String, u64>, fps: &mut Vec<u64>) -> Vec<RunErr> {
+    let l: u64 = [1000, 4000, 20_000][rng.gen_range(0..3)];
+    let stack = Stack::new(StoreKind::Random(l), 100);
+    let mut conn = Conn::new(stack.memc.clone(), 1 << 20);
+    let nlive = 6usize;
+    for k in 0..nlive {
+        let _ = one(&mut conn, W::Set { k, len: 10, ttl: 0, cas: 0 }.frame(0).unwrap());
+    }
+    let rounds = (l as usize / 20) * 3;
+    let mut max_bytes = 0u64;
+    for i in 0..rounds {
+        let w = match i % 3 {
+            0 => W::Set { k: 100, len: 10, ttl: 0, cas: 0 },
+            1 => W::Incr { k: 101 },
+            _ => W::Replace { k: 100, len: 12 },
+        };
+        let _ = one(&mut conn, w.frame(i as u32).unwrap());
+        max_bytes = max_bytes.max(stack.content_size().1);
+    }
+    let mut lost = vec![];
+    for k in 0..nlive {
+        *local.entry("overwrite:live_key_probes".into()).or_insert(0) += 1;
+        let r = one(&mut conn, W::Get { k }.frame(0).unwrap());
+        if r.map(|r| r.status != st::OK).unwrap_or(true) {
+            lost.push(k);
+        }
+    }
+    fps.push(fnv(format!("overwrite:{}:{}", l, rounds % 7).as_bytes()));
+    if !lost.is_empty() && max_bytes < l {
+        return vec![(
+            Viol::new(&["C15"], "live-key-lost:overwrite-workload", format!("{} overwrites/increments of two keys under a limit of {} bytes: at most {} bytes were ever stored, yet live keys {:?} were evicted", rounds, l, max_bytes, lost)),
+            json!({"engine":"acct-overwrite","case":case,"limit":l,"rounds":rounds,"max_stored_bytes":max_bytes}),
+        )];
+    }
     vec![]
 }
 
